@@ -259,8 +259,9 @@ def main():
                       "name and the documented axes.")
 
 
-def replay(chk, cc, rw, rng, what):
-    """Concrete replay through real files in a scratch directory."""
+def replay(chk, cc, rw, rng, reason):
+    """Concrete replay through real files in a scratch directory (expected values are computed independently of the interface
+    objects: tensors of the pressure base are qha's v2p of the calculator's own (T,V) dictionaries)."""
     import tempfile
     import shutil
     import pandas
@@ -317,9 +318,10 @@ def replay(chk, cc, rw, rng, what):
                         return
                     files = sorted(os.listdir(tmp))
                     if what.startswith("tensor:"):
-                        src = (pb if tag == "tp" else vb)
-                        src = src.modulus_adiabatic if what.endswith("adiabatic") else src.modulus_isothermal
-                        want = {pattern.format(base=tag, ij="%d%d" % c_(k[1:]).v): numpy.asarray(src[c_(k[1:])]) * gpa for k in keys}
+                        from qha.v2p import v2p as real_v2p
+                        src = calc.__dict__["modulus_adiabatic"] if what.endswith("adiabatic") else calc.__dict__["modulus_isothermal"]
+                        conv = (lambda a: real_v2p(numpy.asarray(a, dtype=float), q.volume_base.pressures, q.pressure_base.p_array)) if tag == "tp" else (lambda a: a)
+                        want = {pattern.format(base=tag, ij="%d%d" % c_(k[1:]).v): numpy.asarray(conv(src[c_(k[1:])])) * gpa for k in keys}
                     else:
                         val = numpy.asarray(getattr(base, what))
                         want = {pattern.format(base=tag): val * {"GPa": gpa, "ang3": ang3, "km/s": 1.0}[unit]}
@@ -355,7 +357,7 @@ def replay(chk, cc, rw, rng, what):
     finally:
         os.chdir(cwd)
         shutil.rmtree(tmp, ignore_errors=True)
-    chk.harness_error("C15: '%s' did not reproduce through real files" % what)
+    chk.harness_error("C15: '%s' did not reproduce through real files" % reason)
 
 
 if __name__ == "__main__":
